@@ -194,6 +194,13 @@ pub mod crossbeam_channel {
         { unimplemented!() }
     }
 
+    // `crossbeam_channel::unbounded()` with the role the proof gives the new channel (rule
+    // X6.channel-role, a ghost argument): both ends belong to the same, empty, channel
+    #[verifier::external_body]
+    pub fn unbounded<T>(Ghost(role): Ghost<Role>) -> (r: (Sender<T>, Receiver<T>))
+        ensures r.0.role() == role, r.1.role() == role,
+    { unimplemented!() }
+
     impl<T> Sender<T> {
         pub uninterp spec fn role(&self) -> Role;
 
@@ -242,6 +249,10 @@ impl<T> Slab<T> {
             r is None ==> final(self)@ == old(self)@,
     { unimplemented!() }
     #[verifier::external_body]
+    pub fn new() -> (r: Slab<T>)
+        ensures r@ == Map::<usize, T>::empty(),
+    { unimplemented!() }
+    #[verifier::external_body]
     pub fn clear(&mut self)
         ensures final(self)@ == Map::<usize, T>::empty(),
     { unimplemented!() }
@@ -280,6 +291,11 @@ impl<T> Slab<T> {
 /// X4: std::sync::Mutex seen sequentially is the protected value; `lock().expect(..)` /
 /// `lock().unwrap()` are rewritten to `(&mut self.tasks.inner)` and `&self` to `&mut self`.
 pub struct Mutex<T> { pub inner: T }
+impl<T> Mutex<T> {
+    pub fn new(t: T) -> (r: Mutex<T>)
+        ensures r.inner == t,
+    { Mutex { inner: t } }
+}
 
 #[verifier::external_body]
 #[verifier::accept_recursive_types(T)]
@@ -348,7 +364,6 @@ impl<'a> PinMutFuture<'a> {
             !old(w).model_locked, // tasks never run while the model is write-locked (C03)
         ensures
             core_havoc(*old(w), *final(w)),
-            cmd_part_eq(*old(w), *final(w)),
     { unimplemented!() }
 }
 impl<T> Clone for Sender<T> {
@@ -383,6 +398,17 @@ impl From<Arc<TaskWaker>> for Waker {
 // X7: `impl Wake for TaskWaker { fn wake_by_ref(self: &Arc<Self>) }` lifted to an inherent
 // method on the pointee (Arc deref)
 impl TaskWaker {
+//@extract id=TaskWaker::wake file=crux_core/src/capability/executor.rs within="impl Wake for TaskWaker" item="fn wake" props=C01
+//@expect fn wake(self: Arc<Self>)
+//@sig pub fn wake(&self, Tracked(w): Tracked<&mut World>)
+//@contract
+        requires
+            self.sender.role() is Ready,
+        ensures
+            *final(w) == (World { ready: old(w).ready + 1, ..*old(w) }), // [C01/TaskWaker::wake/waking-by-value-does-what-waking-by-reference-does]
+//@rule X6.world * s/self\.wake_by_ref\(\)/self.wake_by_ref(Tracked(w))/
+//@end
+
 //@extract id=TaskWaker::wake_by_ref file=crux_core/src/capability/executor.rs within="impl Wake for TaskWaker" item="fn wake_by_ref" props=C01
 //@expect fn wake_by_ref(self: &Arc<Self>)
 //@sig pub fn wake_by_ref(&self, Tracked(w): Tracked<&mut World>)
@@ -422,7 +448,6 @@ impl QueuingExecutor {
             r is Suspended ==> final(self).slots().dom() =~= old(self).slots().dom() && final(self).slots()[task_id.0 as usize] is Some, // [C01+C13/executor-run_task/a-pending-task-is-put-back-in-its-own-slot]
             forall|k: usize| #![auto] k != task_id.0 as usize && old(self).slots().dom().contains(k) ==> final(self).slots().dom().contains(k) && final(self).slots()[k] == old(self).slots()[k], // [C01+C13/executor-run_task/no-other-task-touched]
             core_havoc(*old(w), *final(w)), // [C01+C03/executor-run_task/emitted-events-and-effects-only-appended]
-            cmd_part_eq(*old(w), *final(w)),
 //@rule X4.lock-erasure 3 s/self\s*\.tasks\s*\.lock\(\)\s*\.(?:expect\("[^"]*"\)|unwrap\(\))/(&mut self.tasks.inner)/
 //@rule X4.guard-drop * s#\bdrop\(lock\);#{ } /* drop(lock): after X4 the guard is a plain exclusive borrow whose scope ends here */#
 //@rule X7.deref-TaskId * s/\*task_id\b/task_id.0/
@@ -443,7 +468,6 @@ impl QueuingExecutor {
             final(self).idle(),
             final(w).spawn == 0 && final(w).ready == 0, // [C01/run_all/no-runnable-work-left-behind]
             core_havoc(*old(w), *final(w)), // [C01+C03/run_all/emitted-events-and-effects-only-appended]
-            cmd_part_eq(*old(w), *final(w)),
 //@rule X4.lock-erasure 1 s/self\s*\.tasks\s*\.lock\(\)\s*\.(?:expect\("[^"]*"\)|unwrap\(\))/(&mut self.tasks.inner)/
 //@rule X6.world * s/\.try_recv\(\)/.try_recv(Tracked(w))/
 //@rule X6.world * s/self\.run_task\(/self.run_task(Tracked(w), /
@@ -453,22 +477,38 @@ impl QueuingExecutor {
             invariant
                 self.wf(), self.idle(), !w.model_locked,
                 !did_some_work ==> w.spawn == 0 && w.ready == 0, // [C01/run_all/outer-loop-exits-only-when-both-queues-are-empty]
-                core_havoc(*old(w), *w), cmd_part_eq(*old(w), *w),
+                core_havoc(*old(w), *w),
 //@loop 2
                 invariant
                     self.wf(), self.idle(), !w.model_locked,
-                    core_havoc(*old(w), *w), cmd_part_eq(*old(w), *w),
+                    core_havoc(*old(w), *w),
                 ensures
                     w.spawn == 0, // [C01/run_all/spawn-queue-drained]
 //@loop 3
                 invariant
                     self.wf(), self.idle(), !w.model_locked,
                     !did_some_work ==> w.spawn == 0, // [C01/run_all/work-done-by-a-ready-task-forces-another-pass]
-                    core_havoc(*old(w), *w), cmd_part_eq(*old(w), *w),
+                    core_havoc(*old(w), *w),
                 ensures
                     w.ready == 0, // [C01/run_all/ready-queue-drained]
 //@end
 }
+
+//@extract id=exec.Spawner file=crux_core/src/capability/executor.rs item="struct Spawner"
+//@rule X2.vis 1 s/\n(\s+)future_sender:/\n\1pub future_sender:/
+//@end
+
+//@extract id=executor_and_spawner file=crux_core/src/capability/executor.rs item="fn executor_and_spawner" props=C01
+//@expect pub(crate) fn executor_and_spawner() -> (QueuingExecutor, Spawner)
+//@sig pub fn executor_and_spawner() -> (r: (QueuingExecutor, Spawner))
+//@contract
+    ensures
+        r.0.wf(), // [C01/executor_and_spawner/the-executors-queue-ends-are-wired-to-its-own-two-channels]
+        r.0.idle(), // [C01/executor_and_spawner/starts-with-no-task]
+        r.1.future_sender.role() is Spawn, // [C01/executor_and_spawner/the-spawner-feeds-the-executors-spawn-queue]
+//@rule X6.channel-role 1 s/let \(future_sender, spawn_queue\) = crossbeam_channel::unbounded\(\);/let (future_sender, spawn_queue) = crossbeam_channel::unbounded(Ghost(Role::Spawn));/
+//@rule X6.channel-role 1 s/let \(ready_sender, ready_queue\) = crossbeam_channel::unbounded\(\);/let (ready_sender, ready_queue) = crossbeam_channel::unbounded(Ghost(Role::Ready));/
+//@end
 
 // ================================================================== capability/channel.rs
 pub mod channel {
@@ -631,7 +671,6 @@ pub mod core_m {
             ensures
                 r is Err ==> *final(w) == *old(w),
                 core_havoc(*old(w), *final(w)),
-                cmd_part_eq(*old(w), *final(w)),
         { unimplemented!() }
     }
 //@extract id=ResolveError file=crux_core/src/core/resolve.rs item="enum ResolveError"
@@ -654,7 +693,6 @@ pub mod core_m {
                 old(w).effects.is_prefix_of(final(w).effects),
                 final(w).model_locked == old(w).model_locked,
                 (old(w).applied.push(val_id(event)) + old(w).events).is_prefix_of(event_log(*final(w))), // consequence of the lines on applied/events (lemma_update_log)
-                cmd_part_eq(*old(w), *final(w)),
         ;
     }
 
@@ -687,7 +725,6 @@ pub mod core_m {
                 old(w).effects.is_prefix_of(channel::ids(r@)), // [C01/process_event/effects-handed-over-exactly-once-in-order]
                 (old(w).applied.push(val_id(event)) + old(w).events).is_prefix_of(final(w).applied), // [C03/process_event/the-shells-event-then-every-queued-event-applied-exactly-once-in-order]
                 !final(w).model_locked, // [C03/process_event/model-released]
-                cmd_part_eq(*old(w), *final(w)),
 //@rule X6.world * s/\.write\(\)/.write(Tracked(w))/
 //@rule X6.world * s/\.update\(/.update(Tracked(w), /
 //@rule X6.world * s/\.spawn\(/.spawn(Tracked(w), /
@@ -709,7 +746,6 @@ pub mod core_m {
                 r is Ok ==> old(w).effects.is_prefix_of(channel::ids(r->Ok_0@)), // [C01/resolve/effects-handed-over-exactly-once-in-order]
                 r is Ok ==> event_log(*old(w)).is_prefix_of(final(w).applied), // [C03/resolve/emitted-events-applied-exactly-once-in-order]
                 !final(w).model_locked,
-                cmd_part_eq(*old(w), *final(w)),
 //@rule X6.world * s/request\.resolve\(/request.resolve(Tracked(w), /
 //@rule X6.world * s/self\.process\(\)/self.process(Tracked(w))/
 //@rule X9.debug-assert * s#debug_assert!\(([^;]*)\);#assert(\1); // [C02/resolve/debug-assertion-cannot-fire]#
@@ -730,7 +766,6 @@ pub mod core_m {
                 old(w).effects.is_prefix_of(channel::ids(r@)), // [C01/process/effects-handed-over-exactly-once-in-order]
                 event_log(*old(w)).is_prefix_of(final(w).applied), // [C03/process/queued-events-applied-exactly-once-in-FIFO-order]
                 !final(w).model_locked, // [C03/process/model-released]
-                cmd_part_eq(*old(w), *final(w)),
 //@rule X6.world * s/\.run_all\(\)/.run_all(Tracked(w))/
 //@rule X6.world * s/\.receive\(\)/.receive(Tracked(w))/
 //@rule X6.world * s/\.write\(\)/.write(Tracked(w))/
@@ -746,7 +781,6 @@ pub mod core_m {
                     w.spawn == 0 && w.ready == 0, // [C01/process/loop/tasks-made-runnable-by-an-update-have-run-before-the-next-event]
                     old(w).effects.is_prefix_of(w.effects), // [C01/process/loop/no-effect-removed-before-the-drain]
                     event_log(*old(w)).is_prefix_of(event_log(*w)), // [C03/process/loop/one-update-per-dequeued-event-none-lost-or-reordered]
-                    cmd_part_eq(*old(w), *w),
                 ensures
                     w.events.len() == 0,
 //@end
@@ -838,6 +872,21 @@ pub mod command_m {
     // X7: `impl Wake for CommandWaker { fn wake_by_ref(self: &Arc<Self>) }` lifted to an inherent
     // method on the pointee (Arc deref)
     impl CommandWaker {
+//@extract id=CommandWaker::wake file=crux_core/src/command/executor.rs within="impl Wake for CommandWaker" item="fn wake" props=C01+C07
+//@expect fn wake(self: Arc<Self>)
+//@sig pub fn wake(&self, Tracked(w): Tracked<&mut World>)
+//@contract
+            requires
+                self.ready_queue.role() is CReady,
+            ensures
+                final(w).c_ready == old(w).c_ready + 1, // [C01/CommandWaker::wake/the-woken-task-is-queued-exactly-once]
+                final(w).host_woken, // [C01/CommandWaker::wake/the-commands-host-is-woken-too]
+                self.woken.is_current_poll_flag() ==> final(w).p_woken, // [C01+C07/CommandWaker::wake/a-waker-consumed-by-value-still-records-that-it-was-used]
+                *final(w) == (World { c_ready: final(w).c_ready, host_woken: true, p_woken: final(w).p_woken, ..*old(w) }),
+//@rule X6.world * s/self\.wake_by_ref\(\)/self.wake_by_ref(Tracked(w))/
+//@rule X6.world * s/\.wake\(\)/.wake(Tracked(w))/
+//@end
+
 //@extract id=CommandWaker::wake_by_ref file=crux_core/src/command/executor.rs within="impl Wake for CommandWaker" item="fn wake_by_ref" props=C01
 //@expect fn wake_by_ref(self: &Arc<Self>)
 //@sig pub fn wake_by_ref(&self, Tracked(w): Tracked<&mut World>)
@@ -1101,7 +1150,7 @@ pub mod command_m {
             ensures
                 final(self).wf(),
                 no_finished_task_held(*final(self), *final(w)), // [C13/run_until_settled/a-finished-or-cancelled-task-is-removed-and-dropped]
-                joiners_notified(*final(w)), // [C01/run_until_settled/whoever-awaits-a-finished-or-cancelled-task-has-been-woken]
+                joiners_notified(*final(w)), // [C01+C07/run_until_settled/whoever-awaits-a-finished-or-cancelled-task-has-been-woken]
                 old(w).c_aborted ==> final(self).tasks@ == Map::<usize, Task>::empty() && *final(w) == *old(w), // [C06+C13/run_until_settled/an-aborted-command-drops-all-its-tasks-polls-none-and-emits-nothing-more]
                 !old(w).c_aborted ==> discarded_only_finished(old(self).tasks@, final(self).tasks@, *final(w)), // [C07/run_until_settled/only-finished-or-cancelled-tasks-are-discarded]
                 !old(w).c_aborted ==> final(w).c_spawn == 0 && final(w).c_ready == 0, // [C01/run_until_settled/no-runnable-work-left-behind]
@@ -1135,7 +1184,7 @@ pub mod command_m {
                     invariant
                         self.wf(),
                         no_finished_task_held(*self, *w), // [C13/run_until_settled/inner-loop/a-task-reported-finished-or-cancelled-is-removed-before-the-next-one-runs]
-                        joiners_notified(*w), // [C01/run_until_settled/inner-loop/join-handles-of-a-finished-or-cancelled-task-are-woken-before-the-next-task-runs]
+                        joiners_notified(*w), // [C01+C07/run_until_settled/inner-loop/join-handles-of-a-finished-or-cancelled-task-are-woken-before-the-next-task-runs]
                         discarded_only_finished(old(self).tasks@, self.tasks@, *w), // [C07/run_until_settled/inner-loop/a-task-is-removed-only-after-being-reported-finished-or-cancelled]
                         old(w).finished.subset_of(w.finished),
                         cmd_outputs_appended(*old(w), *w),
